@@ -3,6 +3,7 @@ package main
 // Evaluator for contract expressions (Go expression syntax + spec builtins) over symbolic states.
 
 import (
+	"sort"
 	"fmt"
 	"go/ast"
 	"go/constant"
@@ -784,6 +785,26 @@ func (e *Env) convertTo(v Value, ty types.Type) Value {
 
 func (e *Env) havocLvalue(x ast.Expr) {
 	if se, ok := x.(*ast.SelectorExpr); ok {
+		if id, ok := se.X.(*ast.Ident); ok && id.Name == "heap" && se.Sel.Name == "all" {
+			fail("contract: 'modifies heap.all' marks an entry point whose frame nobody may rely on; it cannot be applied at a call site (in %s)", e.fr.fn.Name())
+		}
+		if id, ok := se.X.(*ast.Ident); ok && id.Name == "ghost" && se.Sel.Name == "all" {
+			// wildcard for entry points: every ghost variable may change
+			var names []string
+			for k := range e.st.ghost {
+				if !strings.Contains(k, ":") && !strings.Contains(k, ".") {
+					names = append(names, k)
+				}
+			}
+			sort.Strings(names)
+			for _, k := range names {
+				e.st.ghost[k] = e.st.freshLike(e.st.ghost[k], "ghost."+k)
+				if e.fr != nil && e.fr.dry != nil {
+					e.fr.dry.ghosts[k] = true
+				}
+			}
+			return
+		}
 		if id, ok := se.X.(*ast.Ident); ok && id.Name == "ghost" {
 			old, ok := e.st.ghost[se.Sel.Name]
 			if !ok {
@@ -876,6 +897,20 @@ func (e *Env) lvalue(x ast.Expr) (Ptr, types.Type) {
 		}
 		return p, p.Elem
 	case *ast.SelectorExpr:
+		// pkg.globalVar
+		if id, ok := t.X.(*ast.Ident); ok && e.fr != nil {
+			if _, isVar := e.vars[id.Name]; !isVar {
+				for _, pk := range e.lookupPkgs(id.Name) {
+					if o, ok := pk.Scope().Lookup(t.Sel.Name).(*types.Var); ok {
+						if sp := e.fr.v.prog.Package(o.Pkg()); sp != nil {
+							if gv := sp.Var(o.Name()); gv != nil {
+								return e.fr.v.globalPtr(e.st, gv).(Ptr), o.Type()
+							}
+						}
+					}
+				}
+			}
+		}
 		base := e.eval(t.X)
 		p, ok := base.(Ptr)
 		if !ok {
